@@ -120,8 +120,8 @@ namespace sqf::parser::preprocessor
                         while ((c = _next()) != '\0' && c != '\n');
                     }
                 }
-                if (c == '\\')
-                {
+                if (c == '\\' && !is_in_string)
+                { // line continuation; text inside a string literal is left alone
                     auto pc1 = peek(0);
                     auto pc2 = peek(1);
                     if ((pc1 == '\r' && pc2 == '\n') || pc1 == '\n')
